@@ -10,6 +10,7 @@ import (
 	"time"
 
 	"github.com/anishathalye/porcupine"
+	"github.com/orda-io/orda/client/pkg/model"
 	"github.com/orda-io/orda/client/pkg/orda"
 	"pgregory.net/rapid"
 	"verif/sim"
@@ -35,6 +36,9 @@ type c20LinInput struct {
 	calls []sim.Call
 	tx    bool
 	fail  bool
+	// remote: the calls were made on another replica; their operations are delivered here by a sync goroutine
+	// (counters only: increments commute, so the delivery is one more operation of the history)
+	remote bool
 }
 
 // c20LinMapState: the two keys the workloads use.
@@ -73,7 +77,7 @@ func c20LinModel(kind sim.Kind) porcupine.Model {
 			cur := state
 			for i, c := range in.calls {
 				var want string
-				judged := true
+				judged := !in.remote
 				switch kind {
 				case sim.Counter:
 					v := cur.(int32)
@@ -241,7 +245,7 @@ func c20LinGenCall(rt *rapid.T, kind sim.Kind, label string, tagN *int, g int) s
 
 func testC20Linearizable(t *testing.T, kind sim.Kind) {
 	col := stats.New("C20", t.Name(),
-		"2-6 real goroutines on ONE "+string(kind)+" instance, each running a drawn script of 5-40 steps: single calls (reads included) and transactions of 1-3 calls that commit or fail, with drawn Gosched yields; every step is recorded with its call and return time (monotonic clock) and everything it returned; "+
+		"2-6 real goroutines on ONE "+string(kind)+" instance, each running a drawn script of 5-40 steps: single calls (reads included) and transactions of 1-3 calls that commit or fail, with drawn Gosched yields (counters: plus a goroutine that delivers 0-10 increments made on another replica, each delivery one more operation of the history); every step is recorded with its call and return time (monotonic clock) and everything it returned; "+
 			"oracle: the history is linearizable with respect to the plain structure (porcupine, 10 s budget: a transaction is one operation, a failed one has no effect) - i.e. also every RETURNED value is what some one-at-a-time order of the steps returns; no panic, all goroutines finish; "+
 			"non-trivial = the intervals of steps of different goroutines overlapped (measured); distinct = hash of the scripts; a checker time-out makes the case inconclusive (skipped, counted)")
 	col.Assume("schedule coverage is sampled: the Go scheduler decides the interleaving")
@@ -271,13 +275,50 @@ func testC20Linearizable(t *testing.T, kind sim.Kind) {
 		}
 		c.j.Header = map[string]interface{}{"kind": kind, "id_seed": idseed, "scripts": scripts}
 		sim.SeedIDs(idseed)
-		w := sim.NewWorld(kind, 1, 1)
+		w := sim.NewWorld(kind, 2, 2)
 		dt := w.Reps[0].DT
+		// counters: increments made on a second replica are delivered while the goroutines run
+		var remoteCalls []sim.Call
+		if kind == sim.Counter {
+			for i := rapid.IntRange(0, 10).Draw(rt, "remote_increments"); i > 0; i-- {
+				cc := sim.Call{M: "IncreaseBy", Vals: []sim.Val{sim.I(int64(rapid.IntRange(-3, 5).Draw(rt, "rd")))}}
+				remoteCalls = append(remoteCalls, cc)
+				w.Call(1, cc)
+			}
+		}
+		remoteOps := cloneOps(w.Reps[1].Emitted[len(w.Reps[1].Emitted)-w.Unpushed(1):], 0)
 		t0 := time.Now()
 		var mu sync.Mutex
 		var history []porcupine.Operation
 		var panics []string
 		var wg sync.WaitGroup
+		if len(remoteCalls) > 0 {
+			wg.Add(1)
+			go func() {
+				defer wg.Done()
+				defer func() {
+					if p := recover(); p != nil {
+						mu.Lock()
+						panics = append(panics, fmt.Sprint(p))
+						mu.Unlock()
+					}
+				}()
+				// (the creator's snapshot operation of the second replica is not among the unpushed operations that count:
+				// the increments are the last len(remoteCalls) of them)
+				incs := remoteOps[len(remoteOps)-len(remoteCalls):]
+				for i, op := range incs {
+					call := time.Since(t0).Nanoseconds()
+					if _, err := dt.ReceiveRemoteModelOperations(cloneOps([]*model.Operation{op}, 0), true); err != nil {
+						panic("remote delivery failed: " + err.Error())
+					}
+					ret := time.Since(t0).Nanoseconds()
+					mu.Lock()
+					history = append(history, porcupine.Operation{ClientId: g, Input: c20LinInput{kind: kind, calls: remoteCalls[i : i+1], remote: true}, Call: call, Output: []string{}, Return: ret})
+					mu.Unlock()
+					runtime.Gosched()
+				}
+			}()
+		}
 		for gi, script := range scripts {
 			wg.Add(1)
 			go func(gi int, script []c20LinStep) {
